@@ -372,6 +372,10 @@ class ManifestContext:
                 continue
             kids: Set[KeyMaterial] = adp.key_ids()
             keys = models.Key.get_kids(kids)
+            if not keys:
+                # e.g. the key has been deleted since the file was indexed
+                raise ValueError(
+                    f'No key is known for the encrypted {adp.content_type} AdaptationSet')
             dc = DrmContext(stream, keys, self.options)
             adp.drm = dc.manifest_context
             adp.default_kid = list(keys.keys())[0]
